@@ -23,13 +23,39 @@ fn comps<C: MlsConfig>(g: &mls_rs::Group<C>) -> Vec<(String, Vec<u8>)> {
     g.verif_components().into_iter().filter(|(k, _)| k != "repo_pending_updates").collect()
 }
 
+/// `new_client` with the handshake-encryption switch: every message this member sends (proposals, commits) is a PrivateMessage.
+fn new_member<C: MlsConfig>(w: &mut World<C>, mk: Mk<C>, name: &str, retention: usize, enc_ctl: bool) -> usize {
+    let mut s = Setup::new(name);
+    s.retention = retention;
+    s.enc_ctl = enc_ctl;
+    let h = handles(&s, &w.crypto_log, &w.scratch);
+    let (id, sk) = make_identity(&s.name, s.suite);
+    let client = mk(&s, &h, id, sk);
+    w.members.push(Member { identity: s.name.as_bytes().to_vec(), setup: s, h, client, group: None, ghosts: vec![], wrote: false });
+    w.members.len() - 1
+}
+
+/// one PSK of the commit: external (id) or resumption (past epoch of this group), carried by value (committer) or by reference (member 1)
+#[derive(Clone, Debug)]
+enum Psk {
+    Ext { id: Vec<u8>, by_ref: bool },
+    Res { epoch: u64, by_ref: bool },
+}
+
+fn auth<C: MlsConfig>(g: &Group<C>) -> Vec<u8> {
+    g.epoch_authenticator().map(|s| s.as_bytes().to_vec()).unwrap_or_default()
+}
+
 fn scenario<C: MlsConfig>(rng: &mut Rng, mk: Mk<C>, out: &mut Out) {
     let mut w: World<C> = new_world(Default::default(), "/tmp/vharness-scratch-c18");
     let n = rng.range(3, 5) as usize;
+    // half of the cases with encrypted handshake messages (proposals and commits as PrivateMessage)
+    let enc = rng.chance(1, 2);
+    out.cover.insert(format!("enc_ctl={}", enc as u8));
     for i in 0..n + 1 {
         // small retention for some members so that a referenced resumption epoch may be gone
         let ret = *rng.pick(&[1usize, 2, 5]);
-        new_client(&mut w, mk, &format!("m{i}"), false, ret);
+        new_member(&mut w, mk, &format!("m{i}"), ret, enc);
     }
     let g = w.members[0].client.create_group(Default::default(), Default::default(), None).unwrap();
     w.members[0].group = Some(g);
@@ -108,14 +134,19 @@ fn scenario<C: MlsConfig>(rng: &mut Rng, mk: Mk<C>, out: &mut Out) {
         }
     }
     let epoch = w.group(0).current_epoch();
+    for i in 0..n {
+        if w.group(i).current_epoch() != epoch {
+            out.fails.push(format!("setup: m{i} did not follow (enc_ctl {enc})"));
+            return;
+        }
+    }
     // ---- the PSK set -----------------------------------------------------------------------------------------------
     let npsk = rng.range(1, 4) as usize;
-    // holds[i][k]: 0 = right value, 1 = different value, 2 = missing   (member 0 = committer always right)
-    let mut ext_ids: Vec<Vec<u8>> = vec![];
-    let mut res_epochs: Vec<u64> = vec![];
+    // holds[i][k]: 0 = right value, 1 = different value, 2 = missing, 9 = resumption   (member 0 = committer always right)
+    let mut psks: Vec<Psk> = vec![];
     let mut holds: Vec<Vec<u8>> = vec![vec![]; n + 1];
-    let mut kinds = vec![];
-    for k in 0..npsk {
+    let mut n_ext = 0;
+    for _ in 0..npsk {
         if rng.chance(2, 3) || epoch == 0 {
             let id = rng.bytes(6);
             let val = rng.bytes(32);
@@ -129,18 +160,20 @@ fn scenario<C: MlsConfig>(rng: &mut Rng, mk: Mk<C>, out: &mut Out) {
                     _ => {}
                 }
             }
-            ext_ids.push(id);
-            kinds.push(("ext", k));
+            // by reference for every second external PSK (proposed by member 1), the rest by value
+            psks.push(Psk::Ext { id, by_ref: n_ext % 2 == 1 });
+            n_ext += 1;
         } else {
             let e = rng.below(epoch.max(1));
-            res_epochs.push(e);
-            kinds.push(("res", k));
+            // by reference (a non-committer proposes it) for half of the resumption PSKs
+            psks.push(Psk::Res { epoch: e, by_ref: rng.chance(1, 2) });
             for i in 0..n + 1 {
                 holds[i].push(9); // decided by retention / join epoch, computed below
             }
         }
     }
-    out.cover.insert(format!("npsk={npsk}:res={}", res_epochs.len().min(2)));
+    let n_res = psks.iter().filter(|p| matches!(p, Psk::Res { .. })).count();
+    out.cover.insert(format!("npsk={npsk}:res={}", n_res.min(2)));
     // a past epoch e is available to member i iff i was a member in e and either e was entered since i's last write (still pending)
     // or it is among the `retention` most recent prior epochs at that write
     let first_epoch = |i: usize| -> u64 { if i == 0 { 0 } else if i == n - 1 { late_join_epoch } else { 1 } };
@@ -148,56 +181,97 @@ fn scenario<C: MlsConfig>(rng: &mut Rng, mk: Mk<C>, out: &mut Out) {
         let r = w.members[i].setup.retention as u64;
         e >= first_epoch(i) && e < epoch && last_write[i].map(|wr| e + r >= wr).unwrap_or(true)
     };
-    // by-reference for some external PSKs (proposed by member 1), the rest by value
+    // ---- by-reference proposals of member 1, delivered to everybody else ------------------------------------------------
     let mut by_ref_msgs = vec![];
-    let mut by_value_ext = vec![];
-    for (j, id) in ext_ids.iter().enumerate() {
-        if j % 2 == 1 && n > 2 {
-            let idc = id.clone();
-            let (_, m) = w.with_group(1, |g| g.propose_external_psk(ext_psk_id(&idc), vec![]));
-            if let Some(m) = m {
-                by_ref_msgs.push(m);
-                continue;
+    for p in psks.iter_mut() {
+        match p {
+            Psk::Ext { id, by_ref } if *by_ref => {
+                let idc = id.clone();
+                let (_, m) = w.with_group(1, |g| g.propose_external_psk(ext_psk_id(&idc), vec![]));
+                match m {
+                    Some(m) => by_ref_msgs.push(m),
+                    None => *by_ref = false,
+                }
             }
+            Psk::Res { epoch: e, by_ref } if *by_ref => {
+                // the proposer does not need the epoch itself: the proposal only names it
+                let e = *e;
+                let (r, m) = w.with_group(1, |g| g.propose_resumption_psk(e, vec![]));
+                match m {
+                    Some(m) => {
+                        by_ref_msgs.push(m);
+                        out.cover.insert(format!("res-by-ref:proposer-has-epoch={}", available(&w, 1, e) as u8));
+                    }
+                    None => {
+                        out.fails.push(format!("m1 cannot propose the resumption PSK of epoch {e}: {}", r.s()));
+                        *by_ref = false;
+                    }
+                }
+            }
+            _ => {}
         }
-        by_value_ext.push(id.clone());
     }
     for m in &by_ref_msgs {
         for i in 0..n {
             if i != 1 && w.members[i].group.is_some() {
                 let mm = m.clone();
-                w.with_group(i, |g| g.process_incoming_message(mm));
+                let (r, _) = w.with_group(i, |g| g.process_incoming_message(mm));
+                if !r.ok() {
+                    out.fails.push(format!("m{i} cannot cache a PSK proposal of m1: {} (enc_ctl {enc})", r.s()));
+                }
             }
         }
     }
+    // ---- the commit: by-value PSKs in a shuffled order --------------------------------------------------------------------
+    let mut by_value: Vec<Psk> = psks.iter().filter(|p| matches!(p, Psk::Ext { by_ref: false, .. } | Psk::Res { by_ref: false, .. })).cloned().collect();
+    for k in (1..by_value.len()).rev() {
+        let j = rng.below(k as u64 + 1) as usize;
+        by_value.swap(k, j);
+    }
+    if by_value.len() >= 2 {
+        let kinds: Vec<&str> = by_value.iter().map(|p| if matches!(p, Psk::Ext { .. }) { "e" } else { "r" }).collect();
+        out.cover.insert(format!("builder-order:{}", kinds.join("")));
+    }
+    let res_by_value: Vec<u64> = psks.iter().filter_map(|p| if let Psk::Res { epoch, by_ref: false } = p { Some(*epoch) } else { None }).collect();
+    let res_by_ref: Vec<u64> = psks.iter().filter_map(|p| if let Psk::Res { epoch, by_ref: true } = p { Some(*epoch) } else { None }).collect();
+    // a by-reference resumption PSK the committer cannot resolve is left out of the commit (and reported unused)
+    let dropped: Vec<u64> = res_by_ref.iter().copied().filter(|e| !available(&w, 0, *e)).collect();
+    let res_epochs: Vec<u64> = res_by_value.iter().copied().chain(res_by_ref.iter().copied().filter(|e| available(&w, 0, *e))).collect();
     let joiner = n;
     let kp = w.members[joiner].client.generate_key_package_message(Default::default(), Default::default(), None).unwrap();
-    let with_join = res_epochs.is_empty() && rng.chance(1, 2);
-    let bve = by_value_ext.clone();
-    let re = res_epochs.clone();
+    let with_join = rng.chance(1, 2);
+    // a second committer (same state, nothing cached) for the joiner whose Welcome is unusable: is its key package still good?
+    let mut alt: Option<Group<C>> = with_join.then(|| {
+        let mut a = w.group(0).clone();
+        a.clear_proposal_cache();
+        a
+    });
+    let bv = by_value.clone();
+    let kp2 = kp.clone();
     let before0 = comps(w.group(0));
     let (r, o) = w.with_group(0, |g| {
         let mut b = g.commit_builder();
-        for id in &bve {
-            b = b.add_external_psk(ext_psk_id(id))?;
-        }
-        for e in &re {
-            b = b.add_resumption_psk(*e)?;
+        for p in &bv {
+            b = match p {
+                Psk::Ext { id, .. } => b.add_external_psk(ext_psk_id(id))?,
+                Psk::Res { epoch, .. } => b.add_resumption_psk(*epoch)?,
+            };
         }
         if with_join {
-            b = b.add_member(kp)?;
+            b = b.add_member(kp2)?;
         }
         b.build()
     });
     out.cases += 1;
-    let committer_has_all = res_epochs.iter().all(|e| available(&w, 0, *e));
+    let committer_has_all = res_by_value.iter().all(|e| available(&w, 0, *e));
     if o.is_some() != committer_has_all {
         out.fails.push(format!(
-            "committer {} the PSK commit although it {} every referenced past epoch (epochs {res_epochs:?}, now {epoch}, last write {:?}, retention {})",
+            "committer {} the PSK commit although it {} every past epoch it references by value (epochs {res_by_value:?}, by reference {res_by_ref:?}, now {epoch}, last write {:?}, retention {}): {}",
             if o.is_some() { "built" } else { "could not build" },
             if committer_has_all { "retains" } else { "does not retain" },
             last_write[0],
-            w.members[0].setup.retention
+            w.members[0].setup.retention,
+            r.s()
         ));
     }
     let Some(o) = o else {
@@ -209,8 +283,21 @@ fn scenario<C: MlsConfig>(rng: &mut Rng, mk: Mk<C>, out: &mut Out) {
         out.cover.insert(format!("build-fails:{}", r.s()));
         return;
     };
+    // exactly the unresolvable by-reference resumption PSKs are reported unused
+    let unused: Vec<&str> = o.unused_proposals.iter().map(|p| proposal_kind(&p.proposal)).collect();
+    if unused.len() != dropped.len() || unused.iter().any(|k| *k != "psk") {
+        out.fails.push(format!(
+            "PSK commit reports {unused:?} unused; expected exactly the {} by-reference resumption PSKs of epochs {dropped:?} that the committer does not retain (now {epoch}, last write {:?}, retention {})",
+            dropped.len(),
+            last_write[0],
+            w.members[0].setup.retention
+        ));
+    }
+    if !res_by_ref.is_empty() {
+        out.cover.insert(format!("res-by-ref:committed={}:dropped-unused={}", (res_by_ref.len() - dropped.len()).min(2), dropped.len().min(2)));
+    }
     w.with_group(0, |g| g.apply_pending_commit());
-    let auth0 = w.group(0).epoch_authenticator().unwrap().as_bytes().to_vec();
+    let auth0 = auth(w.group(0));
     for i in 1..n {
         if w.members[i].group.is_none() {
             continue;
@@ -225,7 +312,7 @@ fn scenario<C: MlsConfig>(rng: &mut Rng, mk: Mk<C>, out: &mut Out) {
         let res_ok = res_epochs.iter().all(|e| available(&w, i, *e));
         if r.ok() != (ext_ok && res_ok) {
             out.fails.push(format!(
-                "{name} {} the PSK commit: external PSKs right = {ext_ok}, referenced epochs {res_epochs:?} all retained = {res_ok} (now {epoch}, first epoch {}, last write {:?}, retention {}): {}",
+                "{name} {} the PSK commit: external PSKs right = {ext_ok}, referenced epochs {res_epochs:?} all retained = {res_ok} (now {epoch}, first epoch {}, last write {:?}, retention {}, left out {dropped:?}, enc_ctl {enc}): {}",
                 if r.ok() { "accepted" } else { "rejected" },
                 first_epoch(i),
                 last_write[i],
@@ -237,10 +324,13 @@ fn scenario<C: MlsConfig>(rng: &mut Rng, mk: Mk<C>, out: &mut Out) {
             if !ext_ok {
                 out.fails.push(format!("{name} holds a different / no value for an external PSK but accepted the commit"));
             }
-            if w.group(i).epoch_authenticator().unwrap().as_bytes() != auth0.as_slice() {
+            if auth(w.group(i)) != auth0 {
                 out.fails.push(format!("{name} accepted the PSK commit but disagrees with the committer"));
             }
             out.cover.insert("accept".into());
+            if !dropped.is_empty() && dropped.iter().any(|e| !available(&w, i, *e)) {
+                out.cover.insert("accept:lacks-only-a-left-out-epoch".into());
+            }
         } else {
             let ch = World::<C>::changed(&before, &comps(w.group(i)));
             // an encrypted commit consumes its key when rejected after decryption: known finding F8b, not counted here
@@ -256,36 +346,285 @@ fn scenario<C: MlsConfig>(rng: &mut Rng, mk: Mk<C>, out: &mut Out) {
                 let joined_at = if i == n - 1 { late_join_epoch } else { 1 };
                 let all_after_join = res_epochs.iter().all(|e| *e >= joined_at);
                 out.cover.insert(format!("res-reject:{}:after_join={}", r.s(), all_after_join as u8));
+                if res_by_ref.iter().any(|e| available(&w, 0, *e) && !available(&w, i, *e)) {
+                    out.cover.insert("res-by-ref:member-lacking-epoch-rejects".into());
+                }
             } else {
                 out.cover.insert(format!("reject:{}", r.s()));
             }
         }
     }
     if with_join {
-        let all_right = (0..npsk).all(|k| holds[joiner][k] == 0);
+        // the joiner needs every external PSK; a resumption PSK it can never have (it was in no past epoch)
+        let ext_right = (0..npsk).all(|k| holds[joiner][k] == 0 || holds[joiner][k] == 9);
+        let all_right = ext_right && res_epochs.is_empty();
+        let kp_before = w.members[joiner].h.kp.inner.key_packages().len();
         let mut joined = false;
+        let mut why = String::new();
         for wm in &o.welcome_messages {
-            if let Ok((g, _)) = w.members[joiner].client.join_group(None, wm, None) {
-                joined = g.epoch_authenticator().unwrap().as_bytes() == auth0.as_slice();
-                if !joined {
-                    out.fails.push("joiner joined through a PSK Welcome but disagrees with the committer".into());
+            match w.members[joiner].client.join_group(None, wm, None) {
+                Ok((g, _)) => {
+                    if auth(&g) != auth0 {
+                        out.fails.push("joiner joined through a PSK Welcome but disagrees with the committer".into());
+                    }
+                    if !all_right {
+                        out.fails.push(format!(
+                            "a joiner lacking a PSK could use the Welcome (external PSKs right = {ext_right}, resumption PSKs of epochs {res_epochs:?} in the commit)"
+                        ));
+                    }
+                    joined = true;
+                    break;
                 }
-                if !all_right {
-                    out.fails.push("a joiner lacking / holding a different PSK value could use the Welcome".into());
-                }
-                joined = true;
-                break;
+                Err(e) => why = err_class(&e),
             }
         }
         if !joined && all_right {
-            out.fails.push("a joiner holding every PSK cannot use the Welcome".into());
+            out.fails.push(format!("a joiner holding every PSK cannot use the Welcome: {why}"));
         }
         out.verdicts += 1;
         out.cover.insert(format!("joiner:{}", if joined { "in" } else { "out" }));
+        if !joined && !all_right {
+            out.cover.insert(format!("joiner-refuses:{}:{why}", if !res_epochs.is_empty() { "resumption-psk" } else { "external-psk" }));
+            // the refused Welcome did not consume the key package: another commit (same epoch, no PSK) that adds the same
+            // key package lets the joiner in
+            if w.members[joiner].h.kp.inner.key_packages().len() != kp_before {
+                out.fails.push("the refused PSK Welcome changed the joiner's key-package store".into());
+            }
+            if let Some(a) = alt.as_mut() {
+                match a.commit_builder().add_member(kp.clone()).and_then(|b| b.build()) {
+                    Ok(o2) => {
+                        let _ = a.apply_pending_commit();
+                        match o2.welcome_messages.first().map(|wm| w.members[joiner].client.join_group(None, wm, None)) {
+                            Some(Ok((g, _))) => {
+                                if auth(&g) != auth(a) {
+                                    out.fails.push("the joiner used its key package after a refused PSK Welcome but disagrees with that committer".into());
+                                }
+                                out.cover.insert("joiner:key-package-usable-after-refused-welcome".into());
+                            }
+                            other => out.fails.push(format!(
+                                "after refusing a PSK Welcome ({why}) the joiner cannot use the same key package with a Welcome that needs no PSK: {:?}",
+                                other.map(|r| r.err().map(|e| err_class(&e)))
+                            )),
+                        }
+                    }
+                    Err(e) => out.fails.push(format!("the second committer cannot add the joiner: {}", err_class(&e))),
+                }
+            }
+        }
     }
-    if out.samples.len() < 4 {
-        out.samples.push(format!("members={n} psks={kinds:?} holds={holds:?} with_join={with_join}"));
+    if out.samples.len() < 6 {
+        out.samples.push(format!("members={n} enc={enc} psks={psks:?} holds={holds:?} with_join={with_join} dropped={dropped:?}"));
     }
+}
+
+/// wire encoding of a PreSharedKey proposal with a chosen nonce (so that two commits can carry the very same proposals)
+fn psk_proposal_bytes(ext_id: Option<&[u8]>, res: Option<(&[u8], u64)>, nonce: &[u8]) -> Vec<u8> {
+    let mut b = vec![0u8, 4];
+    if let Some(id) = ext_id {
+        b.push(1);
+        b.extend(crate::c12::varint(id.len() as u64));
+        b.extend(id);
+    } else if let Some((gid, e)) = res {
+        b.extend([2u8, 1]);
+        b.extend(crate::c12::varint(gid.len() as u64));
+        b.extend(gid);
+        b.extend(e.to_be_bytes());
+    }
+    b.extend(crate::c12::varint(nonce.len() as u64));
+    b.extend(nonce);
+    b
+}
+
+/// Direct oracles on real groups.  Clones of one committer build commits from the very same proposals (ids and nonces fixed):
+///  * order: the same PSK set in two different orders gives two different epochs (authenticator, exported secret), every
+///    holder follows either commit; the same order twice gives the same epoch (control, when the commit has no update path);
+///  * value: the same PSK id committed while the store holds value 1 resp. value 2 gives two different epochs; a receiver
+///    holding value 1 follows commit 1 and cannot process commit 2 (and stays unchanged), one holding value 2 the other way round.
+fn direct<C: MlsConfig>(rng: &mut Rng, mk: Mk<C>, out: &mut Out) {
+    use mls_rs::mls_rs_codec::MlsDecode;
+    let mut w: World<C> = new_world(Default::default(), "/tmp/vharness-scratch-c18");
+    let enc = rng.chance(1, 2);
+    for i in 0..3 {
+        new_member(&mut w, mk, &format!("d{i}"), 5, enc);
+    }
+    let g = w.members[0].client.create_group(Default::default(), Default::default(), None).unwrap();
+    w.members[0].group = Some(g);
+    let kps: Vec<MlsMessage> = (1..3).map(|i| w.members[i].client.generate_key_package_message(Default::default(), Default::default(), None).unwrap()).collect();
+    let (_, o) = w.with_group(0, |g| {
+        let mut b = g.commit_builder();
+        for kp in kps {
+            b = b.add_member(kp)?;
+        }
+        b.build()
+    });
+    let Some(o) = o else {
+        out.fails.push("direct: setup".into());
+        return;
+    };
+    w.with_group(0, |g| g.apply_pending_commit());
+    for i in 1..3 {
+        match o.welcome_messages.iter().find_map(|wm| w.members[i].client.join_group(None, wm, None).ok()) {
+            Some((g, _)) => w.members[i].group = Some(g),
+            None => {
+                out.fails.push("direct: setup join".into());
+                return;
+            }
+        }
+    }
+    for _ in 0..rng.range(2, 4) {
+        let (_, o) = w.with_group(0, |g| g.commit(vec![]));
+        let Some(o) = o else { return };
+        w.with_group(0, |g| g.apply_pending_commit());
+        for i in 1..3 {
+            let m = o.commit_message.clone();
+            let (r, _) = w.with_group(i, |g| g.process_incoming_message(m));
+            if !r.ok() {
+                out.fails.push(format!("direct: setup epoch (enc_ctl {enc}): {}", r.s()));
+                return;
+            }
+        }
+    }
+    let epoch = w.group(0).current_epoch();
+    let gid = w.group(0).group_id().to_vec();
+    let export = |g: &Group<C>| g.export_secret(b"c18", b"direct", 32).map(|s| s.as_bytes().to_vec()).unwrap_or_default();
+    let proposal = |bytes: &[u8]| mls_rs::group::proposal::Proposal::mls_decode(&mut &bytes[..]).ok();
+    // the committer builds from `props` on a clone and applies
+    let commit_on_clone = |w: &World<C>, props: &[mls_rs::group::proposal::Proposal]| -> Result<(Group<C>, mls_rs::group::CommitOutput), String> {
+        let mut g = w.group(0).clone();
+        let o = g.commit_builder().raw_proposals(props.to_vec()).build().map_err(|e| err_class(&e))?;
+        g.apply_pending_commit().map_err(|e| err_class(&e))?;
+        Ok((g, o))
+    };
+    // receiver i processes `m` on a clone: (accepted?, error, group after, changed components when rejected)
+    let receive = |w: &World<C>, i: usize, m: &MlsMessage| -> (bool, String, Group<C>, Vec<String>) {
+        let mut g = w.group(i).clone();
+        let before = comps(&g);
+        let r = g.process_incoming_message(m.clone());
+        let ch: Vec<String> = World::<C>::changed(&before, &comps(&g)).into_iter().filter(|c| !(c == "secret_tree" && enc)).collect();
+        (r.is_ok(), r.err().map(|e| err_class(&e)).unwrap_or_default(), g, ch)
+    };
+    // ---- order -----------------------------------------------------------------------------------------------------------
+    {
+        let k = rng.range(2, 3) as usize;
+        let mut props = vec![];
+        let mut kinds = String::new();
+        for _ in 0..k {
+            let nonce = rng.bytes(32);
+            let bytes = if rng.chance(1, 2) {
+                let id = rng.bytes(5);
+                let val = rng.bytes(32);
+                for i in 0..3 {
+                    w.members[i].h.psk.inner.lock().unwrap().insert(ext_psk_id(&id), psk_value(&val));
+                }
+                kinds.push('e');
+                psk_proposal_bytes(Some(&id), None, &nonce)
+            } else {
+                // any epoch since the members joined (nobody wrote: all retained)
+                let e = rng.range(1, epoch - 1);
+                kinds.push('r');
+                psk_proposal_bytes(None, Some((&gid, e)), &nonce)
+            };
+            match proposal(&bytes) {
+                Some(p) => props.push(p),
+                None => {
+                    out.fails.push("direct: cannot build a PSK proposal".into());
+                    return;
+                }
+            }
+        }
+        let mut other = props.clone();
+        other.reverse();
+        out.cases += 1;
+        match (commit_on_clone(&w, &props), commit_on_clone(&w, &other), commit_on_clone(&w, &props)) {
+            (Ok((ga, oa)), Ok((gb, ob)), Ok((gc, oc))) => {
+                if auth(&ga) == auth(&gb) || export(&ga) == export(&gb) {
+                    out.fails.push(format!("the same PSKs ({kinds}) committed in two different orders give the same epoch authenticator / exported secret"));
+                }
+                if !oa.contains_update_path && !oc.contains_update_path {
+                    if auth(&ga) != auth(&gc) {
+                        out.fails.push(format!("the same PSK proposals ({kinds}) committed twice in the same order (no update path) give different epochs"));
+                    }
+                    out.cover.insert("order:control-same-order-same-epoch".into());
+                }
+                for i in 1..3 {
+                    for (gx, ox, which) in [(&ga, &oa, "first"), (&gb, &ob, "reversed")] {
+                        let (ok, e, g, _) = receive(&w, i, &ox.commit_message);
+                        out.verdicts += 1;
+                        if !ok {
+                            out.fails.push(format!("d{i} holds every PSK ({kinds}) but rejects the commit with the {which} order: {e} (enc_ctl {enc})"));
+                        } else if auth(&g) != auth(gx) || export(&g) != export(gx) {
+                            out.fails.push(format!("d{i} follows the commit with the {which} order but disagrees with its committer"));
+                        }
+                    }
+                }
+                out.cover.insert(format!("order:{kinds}:differs"));
+            }
+            (a, b, _) => out.fails.push(format!("direct order ({kinds}): the committer cannot build: {:?} {:?}", a.err(), b.err())),
+        }
+    }
+    // ---- value -----------------------------------------------------------------------------------------------------------
+    {
+        let id = rng.bytes(7);
+        let (v1, v2) = (rng.bytes(32), rng.bytes(32));
+        let nonce = rng.bytes(32);
+        let Some(p) = proposal(&psk_proposal_bytes(Some(&id), None, &nonce)) else { return };
+        // d1 holds value 1, d2 holds value 2; the committer's store is swapped between the two builds
+        w.members[1].h.psk.inner.lock().unwrap().insert(ext_psk_id(&id), psk_value(&v1));
+        w.members[2].h.psk.inner.lock().unwrap().insert(ext_psk_id(&id), psk_value(&v2));
+        w.members[0].h.psk.inner.lock().unwrap().insert(ext_psk_id(&id), psk_value(&v1));
+        let a = commit_on_clone(&w, &[p.clone()]);
+        w.members[0].h.psk.inner.lock().unwrap().insert(ext_psk_id(&id), psk_value(&v2));
+        let b = commit_on_clone(&w, &[p.clone()]);
+        w.members[0].h.psk.inner.lock().unwrap().insert(ext_psk_id(&id), psk_value(&v1));
+        let c = commit_on_clone(&w, &[p.clone()]);
+        out.cases += 1;
+        match (a, b, c) {
+            (Ok((ga, oa)), Ok((gb, ob)), Ok((gc, oc))) => {
+                if auth(&ga) == auth(&gb) {
+                    out.fails.push("the same PSK id committed with two different values gives the same epoch authenticator".into());
+                }
+                if export(&ga) == export(&gb) {
+                    out.fails.push("the same PSK id committed with two different values gives the same exported secret".into());
+                }
+                let (ka, kb) = (ga.verif_key_schedule(), gb.verif_key_schedule());
+                for (j, what) in ["init secret", "membership key", "exporter secret", "authentication secret", "external secret"].iter().enumerate() {
+                    if ka[j] == kb[j] {
+                        out.fails.push(format!("the same PSK id committed with two different values gives the same {what}"));
+                    }
+                }
+                if !oa.contains_update_path && !oc.contains_update_path {
+                    // control: everything but the value is equal, and the same value gives the same epoch
+                    if auth(&ga) != auth(&gc) {
+                        out.fails.push("the same PSK proposal committed twice with the same value (no update path) gives different epochs".into());
+                    }
+                    out.cover.insert("value:control-same-value-same-epoch".into());
+                }
+                // receivers: d1 (value 1) follows commit 1 only, d2 (value 2) follows commit 2 only
+                for (i, good, bad, gx) in [(1usize, &oa, &ob, &ga), (2usize, &ob, &oa, &gb)] {
+                    let (ok, e, g, _) = receive(&w, i, &good.commit_message);
+                    out.verdicts += 1;
+                    if !ok {
+                        out.fails.push(format!("d{i} holds the committer's value but rejects the commit: {e} (enc_ctl {enc})"));
+                    } else if auth(&g) != auth(gx) || export(&g) != export(gx) {
+                        out.fails.push(format!("d{i} holds the committer's value, accepts, but disagrees with the committer"));
+                    }
+                    let (ok, e, _, ch) = receive(&w, i, &bad.commit_message);
+                    out.verdicts += 1;
+                    if ok {
+                        out.fails.push(format!("d{i} holds another value of the PSK than the committer used but accepts the commit"));
+                    } else {
+                        if !ch.is_empty() {
+                            out.fails.push(format!("d{i} rejected the commit made with another PSK value ({e}) but changed in {ch:?}"));
+                        }
+                        out.cover.insert(format!("value:other-value-rejected:{e}"));
+                    }
+                }
+                out.cover.insert("value:differs".into());
+            }
+            (a, b, _) => out.fails.push(format!("direct value: the committer cannot build: {:?} {:?}", a.err(), b.err())),
+        }
+    }
+    out.cover.insert(format!("direct:enc_ctl={}", enc as u8));
 }
 
 
@@ -479,6 +818,9 @@ pub fn run(o: &Opts) -> i32 {
         scenario(&mut r, &mk, &mut out);
         if k % 4 == 0 {
             cross_group(&mut r, &mk, &mut out);
+        }
+        if k % 2 == 1 {
+            direct(&mut r, &mk, &mut out);
         }
     }
     let rows = qa.finish();
